@@ -8,9 +8,30 @@
    requirement that the model reproduce every trace from the recorded answers alone.
    [model_fuel_irrelevant]: the fuel of the model (an artefact: the Rust code has none) is not a behavioural
    parameter either - two runs on the same answers that both do not run out of fuel return the same outcome,
-   state, decision log and number of consumed calls (Proofs/SolverFuel.v). *)
+   state, decision log and number of consumed calls (Proofs/SolverFuel.v).
+
+   Since the third session the priority queue of the implementation (the binary heap of the external crate
+   priority-queue 2.1.1) is modelled exactly (Model/Heap.v) and [resolve_h] computes the picked package instead
+   of reading it off the recording.  With it the statement of the property is a THEOREM about the model:
+   [resolve_deterministic]: two recordings of runs against the same provider - a deterministic state machine
+   whose answer may depend on the whole history of calls and answers and on the query - that the model accepts
+   give the same result (outcome, final state, decision log, number of calls) and are the SAME call trace
+   (same calls, same arguments, same order, same answers), for every lawful... in fact for every VersionSet whose
+   boolean equality is Leibniz equality (instance: [resolve_deterministic_range]).
+   [model_heap_erasure]: forgetting the heap gives back [resolve] (so every other theorem of this development
+   transfers to [resolve_h] on the runs it accepts); [heap_pick_is_max]: the package the heap pops always has
+   maximal queue priority (the heap and the abstract queue agree at every decision point), so [resolve_h] never
+   reports OPickNotMax; [priority_queue_pop_is_max], [priority_queue_reachable_invariant]: the heap model is a
+   max-heap with unique keys after every sequence of push / pop / clear and pop returns a maximum.
+   Tie to the code: the Rust PriorityQueue is driven with 67k operation sequences (exhaustive up to length 5 over
+   3 items x 2 priorities, plus long seeded ones with many ties) against [heap_run], and every replayed solver run
+   (140k quick / millions thorough) must make exactly the picks [resolve_h] computes (field (heap ok)).
+   What remains a fact about the runtime: that the Rust code has no other hidden input (hash seeds, addresses,
+   clocks); decided by re-execution in a second thread and a fresh process. *)
 From Coq Require Import List NArith Bool.
-From PG Require Import Model.VS Model.Term Model.Solver Proofs.SolverTrace Proofs.SolverFuel.
+From Coq Require Import ZArith Permutation.
+From PG Require Import Model.VS Model.Term Model.Heap Model.Solver Proofs.SolverTrace Proofs.SolverFuel Proofs.HeapProofs Proofs.SolverDet Proofs.SolverDetQueue Proofs.SolverDetInst Proofs.SolverDetExample.
+Import ListNotations.
 
 Section C07.
   Context {VS Vr : Type} (O : VSOps VS Vr) (veqb : Vr -> Vr -> bool).
@@ -34,8 +55,66 @@ Section C07.
       f <= f' -> resolve O veqb f r v tr = (o, st, log, cnt) -> o <> OOutOfFuel ->
       resolve O veqb f' r v tr = (o, st, log, cnt).
   Proof. exact (resolve_fuel_mono O veqb). Qed.
+
+  Theorem model_heap_erasure : forall fuel r v (tr : list (event (VS := VS) (Vr := Vr))),
+    (forall k, fst (fst (fst (resolve_h O veqb fuel r v tr))) <> OMismatch k 6) ->
+    resolve_h O veqb fuel r v tr = resolve O veqb fuel r v tr.
+  Proof. exact (resolve_h_erasure O veqb). Qed.
+
+  Theorem resolve_deterministic :
+    (forall a b, vs_eqb O a b = true -> a = b) -> (forall a b, veqb a b = true -> a = b) ->
+    forall (prov : provider (VS := VS) (Vr := Vr)) fuel r v tr1 tr2 o1 st1 log1 n1 o2 st2 log2 n2,
+      generated_by prov [] tr1 -> generated_by prov [] tr2 ->
+      resolve_h O veqb fuel r v tr1 = (o1, st1, log1, n1) ->
+      resolve_h O veqb fuel r v tr2 = (o2, st2, log2, n2) ->
+      is_mismatch o1 = false -> is_mismatch o2 = false ->
+      (o1, st1, log1, n1) = (o2, st2, log2, n2) /\ firstn n1 tr1 = firstn n2 tr2.
+  Proof. exact (resolve_h_deterministic O veqb). Qed.
+
+  Theorem heap_pick_is_max : forall fuel r v (tr : list (event (VS := VS) (Vr := Vr))) k p,
+    fst (fst (fst (resolve_h O veqb fuel r v tr))) <> OPickNotMax k p.
+  Proof. exact (resolve_h_pick_is_max O veqb). Qed.
 End C07.
+
+Theorem resolve_deterministic_range :
+  forall (prov : @provider Instances.RZ.range Z) fuel r v tr1 tr2 o1 st1 log1 n1 o2 st2 log2 n2,
+    generated_by prov [] tr1 -> generated_by prov [] tr2 ->
+    resolve_h Instances.RZ.range_vs Z.eqb fuel r v tr1 = (o1, st1, log1, n1) ->
+    resolve_h Instances.RZ.range_vs Z.eqb fuel r v tr2 = (o2, st2, log2, n2) ->
+    is_mismatch o1 = false -> is_mismatch o2 = false ->
+    (o1, st1, log1, n1) = (o2, st2, log2, n2) /\ firstn n1 tr1 = firstn n2 tr2.
+Proof. exact resolve_h_deterministic_range. Qed.
+
+(* the priority queue: after every sequence of push / pop / clear from the empty queue the keys are unique and
+   the max-heap order holds; pop returns an element of maximal priority and removes exactly it *)
+Theorem priority_queue_reachable_invariant : forall ops : list (hop (I := N)),
+  heap_wf (heap_of_ops N.eqb ops) /\ heap_ord (heap_of_ops N.eqb ops).
+Proof. exact (heap_reachable_inv N.eqb N_eqb_spec'). Qed.
+
+Theorem priority_queue_pop_is_max : forall (h : heap (I := N)) e h',
+  heap_ord h -> heap_pop h = Some (e, h') ->
+  Permutation h (e :: h') /\ forall x, In x h -> (snd x <= snd e)%Z.
+Proof. intros h e h' Ho Hp. split; [exact (heap_pop_perm h e h' Hp)|exact (heap_pop_max h e h' Ho Hp)]. Qed.
+
+Theorem priority_queue_push_is_update : forall (h : heap (I := N)) p z, heap_wf h ->
+  Permutation (heap_push N.eqb h p z) ((p, z) :: filter (fun e => negb (N.eqb p (fst e))) h).
+Proof. exact (heap_push_perm N.eqb N_eqb_spec'). Qed.
+
+(* non-vacuity: a run with a tie among the queued priorities; the heap decides, the other maximal pick is
+   accepted by [resolve] but is not a run of [resolve_h]; both recordings are generated by one provider *)
+Example determinism_nonvacuous :
+  out_of (resolve_h zvs' Z.eqb 100 0%N 1%Z tie_tr_heap) = OSolution [(0%N, 1%Z); (2%N, 1%Z); (1%N, 1%Z)]
+  /\ out_of (resolve_h zvs' Z.eqb 100 0%N 1%Z tie_tr_other) = OMismatch 7 6
+  /\ generated_by tie_prov [] tie_tr_heap /\ generated_by tie_prov [] tie_tr_other.
+Proof. vm_compute. tauto. Qed.
 
 Print Assumptions model_trace_function.
 Print Assumptions model_fuel_irrelevant.
 Print Assumptions model_fuel_monotone.
+Print Assumptions model_heap_erasure.
+Print Assumptions resolve_deterministic.
+Print Assumptions heap_pick_is_max.
+Print Assumptions resolve_deterministic_range.
+Print Assumptions priority_queue_reachable_invariant.
+Print Assumptions priority_queue_pop_is_max.
+Print Assumptions priority_queue_push_is_update.
